@@ -121,6 +121,7 @@ def run(ck):
             if out2.get("%s%d" % (tag, i)) != b.hex():
                 ck.violation("single-block decryption is not the inverse of encryption", {"class": None, "key": k.hex(), "block": b.hex(), "direction": tag, "got": out2.get("%s%d" % (tag, i))})
     related_key_sequences(ck, exe)
+    early_and_copied_objects(ck, exe)
     parallel_purity(ck, exe, ["aes %s %s %s" % (r.choice("ed"), rnd16(r).hex(), rnd16(r).hex()) for _ in range(24)], "single-block AES objects with different keys", iters=3000)
     ck.cov["optional_openssl_crosscheck"] = openssl_crosscheck(ck, cases)
     return finish_proof(ck, rule="FIPS-197 App. B/C.1 vectors, AESAVS VarTxt/VarKey families, every byte value 0..255 placed in block and key positions (touches every S-box / log-table index), random key/block pairs; both directions; plus dec(enc(b))=b / enc(dec(b))=b on the implementation. distinct = distinct case lines",
@@ -201,3 +202,36 @@ def related_key_sequences(ck, exe):
                               "replay": "feed the listed lines IN THIS ORDER to ONE process of harness/drv.cpp built against /repo"})
                 break
     ck.cov.setdefault("case_classes", {})["sequence/related-keys-and-blocks"] = len(lines) + len(extra)
+
+
+def early_and_copied_objects(ck, exe):
+    """(1) the cipher (and the digests) used DURING STATIC INITIALISATION of the caller's translation unit, which is linked before the
+    library's objects (driver: StaticInitProbe, op sinit): tables the library prepares in static initialisers of its own are not
+    ready then; (2) a cipher object that was COPIED (by value, as into a container), the copy used and destroyed, the heap churned,
+    then the original used (driver op aescopy): a copy must not take anything away from the original."""
+    import hashlib
+    r = ck.rng
+    mdrv = ck.model_driver()
+    k, b = bytes(range(16)), bytes(i * 0x11 for i in range(16))
+    want = wv.run_lines([mdrv, "spec"], ["e aes e %s %s" % (k.hex(), b.hex()), "d aes d %s %s" % (k.hex(), b.hex())], shards=1)
+    exp = " ".join([want.get("e", "?"), want.get("d", "?"), hashlib.sha1(b"abc").hexdigest(), hashlib.md5(b"abc").hexdigest(), hashlib.sha256(b"abc").hexdigest()])
+    got = wv.run_lines([exe], ["s sinit"], shards=1, env=ck.env()).get("s", "(no output)")
+    ck.cov["evaluations"] += 1
+    if got != exp:
+        ck.violation("single-block AES / digests computed during static initialisation of the calling program differ from the standards",
+                     {"class": None, "case": "sinit (key 00..0f, block 00 11 .. ff, digests of 'abc')", "implementation": got, "spec": exp,
+                      "replay": "harness/drv.cpp: a global object's constructor encrypts / decrypts one block and hashes 'abc'; echo 'x sinit' | drv prints what it got"})
+    lines = []
+    for i in range(24 if ck.tier == "thorough" else 8):
+        lines.append("c%d aescopy %s %s %s" % (i, "ed"[i % 2], rnd16(r).hex(), rnd16(r).hex()))
+    want = wv.run_lines([mdrv, "spec"], [l.replace(" aescopy ", " aes ") for l in lines], shards=1)
+    for l in lines:          # one process per line: the op leaves the process
+        cid = l.split()[0]
+        out = wv.run_lines([exe], [l], shards=1, env=ck.env())
+        g = out.get("__aescopy", out.get(cid, "(no output: the process died)"))
+        ck.cov["evaluations"] += 1
+        if g != want.get(cid):
+            ck.violation("a cipher object gives a wrong block after a COPY of it was used and destroyed",
+                         {"class": None, "case": l, "implementation": g, "spec": want.get(cid), "replay": "echo 'x <case>' | harness/drv.cpp built against /repo"})
+            break
+    ck.cov.setdefault("case_classes", {})["static-initialisation-use/copied-object"] = 1 + len(lines)
